@@ -363,7 +363,12 @@ def run_impl(case):
         return {"obs": ["bad-op"] * len(case["lines"]), "model": list(case["lines"]), "snaps": [], "stats": {"malformed": 1}}
     _install_patch()
     FORBID.clear()
-    w = _build(case)
+    try:
+        w = _build(case)
+    except Exception as e:  # noqa: BLE001
+        # the library refuses to build this world (e.g. a macro returning one channel twice): not an edit
+        return {"obs": [], "model": [], "snaps": [], "stats": {"setup-refused:" + type(e).__name__: 1}, "chans": [],
+                "order": []}
     w.forbid_ids = []
     for a, b in case.get("forbid", []):
         try:
@@ -795,7 +800,8 @@ def _macro_case(rng, tier):
     for name in ("p", "q"):
         k = rng.choice([0, 1, 1, 2])
         uses[name] = [[rng.choice(labs), rng.choice(["x", "y"])] for _ in range(k)]
-    returns = [[rng.choice(labs), "o"], [rng.choice(labs), "o"]]
+    ra, rb = rng.sample(labs, 2)  # a channel can feed only one macro output (fix f61a50a refuses the rest)
+    returns = [[ra, "o"], [rb, "o"]]
     extra = []
     top = rng.choice(["macro", "macro", "macro_in_wf"])
     case = {"top": top, "mac": mac, "children": children, "data": data, "uses": uses, "returns": returns,
@@ -943,17 +949,17 @@ def corpus():
            "uses": {"p": [["a", "x"]]}, "returns": [["b", "o"], ["a", "o"]], "cands": [["r0", "IxyS"]],
            "ops": [["replace", "@m", "b", "r0"]]}
     yield {"top": "macro", "mac": "MacT", "children": [["a", "Ixy"], ["b", "Ixy"]], "data": [["a", "o", "b", "x"]],
-           "uses": {"p": [["a", "x"]]}, "returns": [["b", "o"], ["b", "o"]], "cands": [["r0", "SxIy"]],
+           "uses": {"p": [["a", "x"]]}, "returns": [["b", "o"], ["a", "o"]], "cands": [["r0", "SxIy"]],
            "ops": [["replace", "@m", "a", "r0"]]}
     # D4: the replacement lacks an unconnected but value-linked channel
     yield {"top": "macro", "mac": "MacT", "children": [["a", "Ixy"], ["b", "Ixy"]], "data": [["a", "o", "b", "y"]],
-           "uses": {"p": [["a", "y"]]}, "returns": [["b", "o"], ["b", "o"]], "cands": [["r0", "Ux"]],
+           "uses": {"p": [["a", "y"]]}, "returns": [["b", "o"], ["a", "o"]], "cands": [["r0", "Ux"]],
            "ops": [["replace", "@m", "a", "r0"]]}
     # D3: add_child refuses after the old child is gone (Workflow; the macro itself)
     yield {"top": "wf", "children": [["a", "Pxy"], ["b", "Pxy"]], "data": [], "cands": [["r0", "Workflow"]],
            "ops": [["replace", "@wf", "a", "r0"]]}
     yield {"top": "macro_in_wf", "mac": "MacU", "children": [["a", "Pxy"], ["b", "Pxy"]], "data": [],
-           "uses": {}, "returns": [["a", "o"], ["a", "o"]], "cands": [],
+           "uses": {}, "returns": [["a", "o"], ["b", "o"]], "cands": [],
            "ops": [["sconnect", "b", "run", "a"], ["start", "@m", ["a"]], ["dag", "@m"], ["replace", "@m", "b", "@wf"]]}
     # D5: the undo of copy_io removes a connection that was there before
     yield {"top": "wf", "children": [["a", "Pxy"], ["s", "Sxy"], ["t", "Pxy"], ["b", "Ixy"]],
